@@ -41,9 +41,24 @@ func (c *Ctx) smtTextQ(o *Obligation, dropQ bool) string {
 		sb.WriteString(d)
 		sb.WriteString("\n")
 	}
-	for _, f := range c.facts[:o.NFacts] {
+	var keep map[int]bool
+	if c.anc != nil && o.Block >= 0 {
+		keep = map[int]bool{}
+		for b := range c.anc[o.Block] {
+			keep[b] = true
+		}
+		for _, b2 := range o.Blocks {
+			for b := range c.anc[b2] {
+				keep[b] = true
+			}
+		}
+	}
+	for i, f := range c.facts[:o.NFacts] {
 		if dropQ && strings.Contains(f, "(forall ") {
 			continue
+		}
+		if keep != nil && c.factBlk[i] >= 0 && !keep[c.factBlk[i]] {
+			continue // generated in a block that cannot reach this obligation: irrelevant on its paths
 		}
 		sb.WriteString("(assert ")
 		sb.WriteString(f)
